@@ -170,14 +170,19 @@ Definition to_domain (m : message) : Prop :=
   | None => True
   end.
 (* the Request-URI (second field of the request line) is the reference rendering of a well-formed address *)
+(* ... and strings.Fields (the proxy) splits the request line like the judge's ASCII split: no
+   UTF-8 encoding of a Unicode white-space rune inside it ([no_usp (jm_start jin) = true] is
+   sufficient, BytesLemmas.fields_go_no_usp; [wf_addr] allows bytes >= 128 in the Request-URI) *)
 Definition ruri_domain (jin : jmsg) : Prop :=
+  fields_go (jm_start jin) = fields (jm_start jin) /\
   forall meth u ver, fields (jm_start jin) = [meth; u; ver] -> exists au, wf_addr au = true /\ u = rp_addr au.
 
 Lemma start_agree l st meth u ver :
   parse_start_line l = Ok st -> has_prefix (s2b "SIP/") l = false -> fields l = [meth; u; ver] ->
+  fields_go l = fields l ->
   exists a, st = SReq meth a ver /\ parse_addr_spec u = Ok a.
 Proof.
-  unfold parse_start_line. intros P R F. rewrite R in P. unfold parse_request_line in P. rewrite F in P.
+  unfold parse_start_line. intros P R F G. rewrite R in P. unfold parse_request_line in P. rewrite G, F in P.
   destruct (parse_addr_spec u) as [a| |]; try discriminate P. cbn [rbind] in P. injection P as <-.
   exists a. split; reflexivity.
 Qed.
@@ -262,8 +267,8 @@ Proof.
   destruct (has_prefix (s2b "SIP/") (jm_start jin)) eqn:Resp; [discriminate Q|].
   destruct (fields (jm_start jin)) as [|meth [|u [|ver [|x y]]]] eqn:F; try discriminate Q.
   injection Q as <-.
-  destruct (start_agree _ _ _ _ _ PS Resp F) as (a & Em & Pa).
-  destruct (DR meth u ver F) as (au & Wau & ->).
+  destruct (start_agree _ _ _ _ _ PS Resp F (proj1 DR)) as (a & Em & Pa).
+  destruct (proj2 DR meth u ver F) as (au & Wau & ->).
   rewrite (parse_addr_spec_rp au Wau) in Pa. injection Pa as <-.
   split; [unfold is_request; rewrite Em; reflexivity|].
   unfold j_choose. cbn [jq_routes jq_to jq_ruri].
@@ -889,7 +894,7 @@ Proof.
   - assert (E : get_header (s2b "To") (m_headers (parsed b13_req)) =
                 Some {| h_name := s2b "T"; h_val := HRaw (rp_fromto b3_to) |}) by (vm_compute; reflexivity).
     unfold to_domain. rewrite E. exists b3_to. split; [vm_compute; reflexivity|reflexivity].
-  - intros meth u ver F.
+  - split; [vm_compute; reflexivity|]. intros meth u ver F.
     assert (E : fields (jm_start (jin_of b13_req)) = [s2b "INVITE"; rp_addr (b3_uri "bob" "elsewhere.example"); s2b "SIP/2.0"])
       by (vm_compute; reflexivity).
     rewrite E in F. injection F as _ <- _. exists (b3_uri "bob" "elsewhere.example").
@@ -916,7 +921,7 @@ Proof.
   - assert (E : get_header (s2b "To") (m_headers (parsed b3_req_svc)) =
                 Some {| h_name := s2b "T"; h_val := HRaw (rp_fromto b3_to) |}) by (vm_compute; reflexivity).
     unfold to_domain. rewrite E. exists b3_to. split; [vm_compute; reflexivity|reflexivity].
-  - intros meth u ver F.
+  - split; [vm_compute; reflexivity|]. intros meth u ver F.
     assert (E : fields (jm_start (jin_of b3_req_svc)) = [s2b "INVITE"; rp_addr (b3_uri "bob" "example.com"); s2b "SIP/2.0"])
       by (vm_compute; reflexivity).
     rewrite E in F. injection F as _ <- _. exists (b3_uri "bob" "example.com").
@@ -1271,8 +1276,8 @@ Proof.
   - assert (E : get_header (s2b "To") (m_headers (parsed b3_req_tcp)) =
                 Some {| h_name := s2b "T"; h_val := HRaw (rp_fromto b3_to) |}) by (vm_compute; reflexivity).
     unfold to_domain. rewrite E. exists b3_to. split; [vm_compute; reflexivity|reflexivity].
-  - intros meth u ver F.
-    assert (E : fields (jm_start (jin_of b3_req_tcp)) = [s2b "INVITE"; rp_addr (b3_uri "bob" "elsewhere.example"); s2b "SIP/2.0"])
+  - split; [vm_compute; reflexivity|]. intros meth u ver F.
+    assert (E : fields (jm_start (jin_of b3_req_tcp)) =[s2b "INVITE"; rp_addr (b3_uri "bob" "elsewhere.example"); s2b "SIP/2.0"])
       by (vm_compute; reflexivity).
     rewrite E in F. injection F as _ <- _. exists (b3_uri "bob" "elsewhere.example").
     split; [vm_compute; reflexivity|reflexivity].
